@@ -196,6 +196,18 @@ func (s *Sim) CurrentTask() *Task {
 	return s.gtask[g]
 }
 
+// Sleep lets d of virtual time pass and then parks, so that what the caller
+// does after waking up is ordered by the scheduler (several goroutines whose
+// timers fire at the same virtual instant would otherwise race).
+func (s *Sim) Sleep(d time.Duration) {
+	if d > 0 {
+		time.Sleep(d)
+	}
+	if t := s.CurrentTask(); t != nil && !t.Done {
+		s.Park(t.Node, t.Name)
+	}
+}
+
 // YieldSite is called by woven code before a statement.
 func (s *Sim) YieldSite(site int) {
 	if s.YieldOn != nil && !s.YieldOn(site) {
